@@ -82,6 +82,9 @@ class PolarsCategoryTryCoerce(Contract):
             data.attrs.update(lazyframe=lf, key=key)
             data.attrs0.update(data.attrs)
             data.attrs["__fields__order"] = ("lazyframe", "key")
+        # the categories are TEXT: membership is a question about the value CAST to text (`castable`: which values polars can cast, an
+        # uninterpreted predicate created here so that the specification speaks of it whether or not the code performs the cast)
+        cur().ghost["castable"] = z3.Function(cur().fresh_name("castable"), z3.RealSort(), z3.BoolSort())
         cats = PL.SymSet.fresh("categories", "real")
         me = T.Ref(PE.Category, type=T.Const(pl.Utf8), categories=T.Const(cats)).fresh("self")
         cur().ghost.update(lf=lf, cats=cats)
@@ -138,7 +141,7 @@ class PolarsCategoryTryCoerce(Contract):
             warnings.simplefilter("ignore")
             t = PE.Category(["a", "b"])
             obs, bad = {}, False
-            for data, want in ((["a", "z"], ["z"]), (["a", None, "b"], None), (["z", None, "q"], ["z", "q"])):
+            for data, want in ((["a", "z"], ["z"]), (["a", None, "b"], None), (["z", None, "q"], ["z", "q"]), ([1, 2], [1, 2]), ([True, None], [True])):
                 for key in ("x", None):
                     label = f"{data} key={key}"
                     try:
